@@ -259,6 +259,28 @@ pub(crate) enum SpanInfo {
     Vec(Span, Vec<SpanInfo>),
 }
 
+impl Drop for SpanInfo {
+    /// Unlinks the span information of a list's `cdr` chain in a loop, so that
+    /// dropping the datum of a long list does not overflow the stack (the
+    /// value itself is dropped iteratively by `Cons`).
+    fn drop(&mut self) {
+        let mut next = match self {
+            SpanInfo::Cons(_, meta) => {
+                std::mem::replace(&mut meta[1], SpanInfo::Prim(Span::empty()))
+            }
+            _ => return,
+        };
+        loop {
+            next = match &mut next {
+                SpanInfo::Cons(_, meta) => {
+                    std::mem::replace(&mut meta[1], SpanInfo::Prim(Span::empty()))
+                }
+                _ => return,
+            };
+        }
+    }
+}
+
 impl SpanInfo {
     fn span(&self) -> Span {
         match self {
